@@ -20,7 +20,9 @@ var c18Calls = []struct {
 	name string
 	f    func() string
 }{
-	{"BooleanOpPaths64(Intersection,NonZero)", func() string { return fmt.Sprint(clipper.BooleanOpPaths64(clipper.Intersection, c18S, c18C, clipper.NonZero)) }},
+	{"BooleanOpPaths64(Intersection,NonZero)", func() string {
+		return fmt.Sprint(clipper.BooleanOpPaths64(clipper.Intersection, c18S, c18C, clipper.NonZero))
+	}},
 	{"BooleanOpPaths64(Xor,EvenOdd)", func() string { return fmt.Sprint(clipper.BooleanOpPaths64(clipper.Xor, c18S, c18C, clipper.EvenOdd)) }},
 	{"BooleanOpPolyTree64(Union,NonZero)", func() string {
 		return canonTree(clipper.BooleanOpPolyTree64(clipper.Union, c18S, c18C, clipper.NonZero).PolyPathBase)
